@@ -33,7 +33,9 @@ def model_line(op: dict):
     if o == "open":
         return " ".join(["open", _fl(op), str(op["w"]), opt(op.get("key"), lambda k: "x" + k)] + _wopts(op))
     if o == "wchunk":
-        return " ".join(["wchunk", str(op["w"]), "x" + op["data"]])
+        return " ".join(["wwrite" if op.get("mode") == "write" else "wchunk", str(op["w"]), "x" + op["data"]])
+    if o == "wabandon":
+        return " ".join(["wabandon", str(op["w"]), "x" + op["data"]])
     if o in ("commit", "drop"):
         return f"{o} {op['w']}"
     if o == "insert":
@@ -141,6 +143,8 @@ def canon_impl(op: dict, r: dict):
             return ("ok", "num", v)
         if o == "wchunk":
             return ("ok", "num", v if op.get("mode") == "write" else len(op["data"]) // 2)
+        if o == "wabandon":
+            return ("ok", "unit") if v is None else ("ok", "num", v)
         if o == "exists":
             return ("ok", "bool", v)
         if o == "rcheck":
